@@ -313,7 +313,7 @@ pub fn check(tier: Tier) -> i32 {
     cleanup_process_scratch();
     ctx.finish(
         "exploration",
-        "proptest-generated trees of tiny files in 1-4 roots with hard-link sets inside/across roots, file and directory symlinks, overlapping roots, in a fifth of the cases an additional root on another block device holding symlinks (reported with -S) to 70 kB files of the first root, 9 root spellings (relative, ./, trailing slash, /., .., ../cwd, absolute, through a directory symlink, //) x --rf-over 0..3 / --rf-under 1..4 / --unique / -H / -I / -S / -L; oracle 1: reference replica count (hard links one replica, every path under -H, one per canonical root under -I) decides reported classes, each with all its paths; oracle 2 (metamorphic): canonical and alternative spellings of the same roots, and the same roots fed through --stdin (unless that combination is rejected), give identical groups and statistics. Non-trivial = a class whose path count, inode count and root count are not all equal and whose replica count is within 1 of the threshold.",
+        "proptest-generated trees of tiny files in 1-4 roots with hard-link sets inside/across roots, file and directory symlinks, overlapping roots, in an eighth of the cases isolated roots `rK/a` only (equal depth, equal last name, one content under every root and one under every second), in a fifth of the cases an additional root on another block device holding symlinks (reported with -S) to 70 kB files of the first root, 9 root spellings (relative, ./, trailing slash, /., .., ../cwd, absolute, through a directory symlink, //) x --rf-over 0..3 / --rf-under 1..4 / --unique / -H / -I / -S / -L; oracle 1: reference replica count (hard links one replica, every path under -H, one per canonical root under -I) decides reported classes, each with all its paths; oracle 2 (metamorphic): canonical and alternative spellings of the same roots, and the same roots fed through --stdin (unless that combination is rejected), give identical groups and statistics. Non-trivial = a class whose path count, inode count and root count are not all equal and whose replica count is within 1 of the threshold.",
         &["root arguments name directories", "isolate roots are compared canonically (statement: outcome independent of spelling)"],
     )
 }
